@@ -115,6 +115,10 @@ def eq_claim(a, b, rel=None, abs_=None):
     return symx.zabs(ta - tb) <= tol
 
 
+import re as _re
+_TOKEN = _re.compile(r'987654321\d{8}')
+
+
 def compare(a, b, path='', tol=None):
     """structural comparison of two nested dict/list/tuple/leaf structures whose numeric leaves may be proxies.
     returns (mismatches, claims): mismatches = list of 'path: why' decided concretely; claims = list of (path, z3 Bool)
@@ -167,6 +171,19 @@ def _cmp(a, b, path, mism, claims, tol):
             if tol and close(a, b, tol[0] or 0, tol[1] or 0):
                 return
             mism.append('%s: %r vs %r' % (path, a, b))
+        return
+    if isinstance(a, str) and isinstance(b, str) and a != b and _TOKEN.search(a) and _TOKEN.search(b):
+        # text that embeds serialisation tokens (control conditions/actions): same skeleton, token values equal
+        ta, tb = _TOKEN.findall(a), _TOKEN.findall(b)
+        if _TOKEN.sub('#', a) != _TOKEN.sub('#', b) or len(ta) != len(tb):
+            mism.append('%s: %r vs %r' % (path, _TOKEN.sub('<num>', a), _TOKEN.sub('<num>', b)))
+            return
+        for x, y in zip(ta, tb):
+            hx, hy = symx.TOKENS.lookup(x), symx.TOKENS.lookup(y)
+            if hx is None or hy is None or hx[1] != hy[1]:
+                mism.append('%s: number formatted differently (%r vs %r)' % (path, hx and hx[1], hy and hy[1]))
+                return
+            claims.append((path, real(hx[0]) == real(hy[0])))
         return
     if a != b:
         mism.append('%s: %r vs %r' % (path, a, b))
